@@ -51,7 +51,7 @@ def native_driver(sc, g, entry):
         return None
     out = os.path.join(nat["dir"], "drv-" + re.sub(r"[^A-Za-z0-9_]", "_", g.name))
     srcs = [x if os.path.isabs(x) else os.path.join(VERIF, x) for x in ([h] if isinstance(h, str) else h)]
-    cmd = ["gcc", "-O1", "-g", "-w", "-ffp-contract=off"] + nat["san"] + nat["inc"] + \
+    cmd = ["gcc", "-O1", "-g", "-w", "-ffp-contract=off"] + nat["san"] + nat["inc"] + g.harness_defines + \
           ["-I", os.path.join(VERIF, "contracts"), "-I", os.path.join(VERIF, "harness"), "-I", sc.gen_dir(),
            "-DVN_ENTRY=" + entry, os.path.join(VERIF, "native", "vnative.c")] + srcs + [nat["lib"], "-lm", "-o", out]
     core.run_tool(cmd, 600, "gcc native driver " + g.name)
